@@ -427,6 +427,15 @@ def apply(I, st, inst, node, nidx, callee, args, term, dty, line):
         return I.wrap(("user" + name, cp, I.ver_of(st, p) if p else 0, site), dty)
     if trait == "core::iter::Iterator" and name in ("map", "rev", "take", "by_ref", "enumerate"):
         return ("iteradapt", name, h(args))
+    if trait in ("core::iter::Iterator", "core::iter::DoubleEndedIterator") and name in ("nth", "nth_back", "count", "last", "fold", "rfold", "try_fold", "try_rfold",
+                                                                                          "advance_by", "advance_back_by", "for_each"):
+        # another consuming method of an abstract / user iterator: user code that moves the iterator (a wrapper forwarding it forwards `name`)
+        p = ref_path(args[0])
+        sty = callee.get("self_ty", {})
+        E("USER", what="iter-" + name, target=canon_path(I, st, p) if p else h(args[0]), self_ty=ty_str(I.tcx.subst(sty, inst.subst)) if sty else "?", forwards=name)
+        if p is not None:
+            I.havoc(st, p, site)
+        return I.wrap(("user" + name, site), dty)
 
     # ---------------------------------------------------------------- user-replaceable core traits
     if trait == "core::clone::Clone" and name == "clone":
@@ -588,6 +597,24 @@ def apply(I, st, inst, node, nidx, callee, args, term, dty, line):
     return I.wrap(("call", path, tuple(h(a) for a in args), site), dty)
 
 
+def _typestate_of(I, st, ptr):
+    """for a pointer into the storage of a vector object: (owner path, {field: current value of the owner's type_id / drop_fn}); an unwritten field of a
+    parameter object reads as ("init", path, 0)"""
+    from .interp import sub_of
+    if not (isinstance(ptr, tuple) and ptr and ptr[0] == "ptr" and isinstance(ptr[1], tuple) and ptr[1][:1] == ("BASE",)):
+        return None
+    mp = ptr[1][1]
+    if not (isinstance(mp, tuple) and len(mp) == 2 and mp[1] and mp[1][-1] == "mem"):
+        return None
+    owner = (mp[0], tuple(mp[1][:-1]))
+    out = {}
+    for F in ("type_id", "drop_fn"):
+        pth = (owner[0], owner[1] + (F,))
+        v = I.load(st, pth, None)
+        out[F] = h(v) if v is not None else None
+    return (owner, out)
+
+
 def indirect(I, st, inst, node, nidx, callee, args, dty, line):
     f = callee["indirect"]
     fv = I.eval_operand(st, inst, f)
@@ -599,7 +626,8 @@ def indirect(I, st, inst, node, nidx, callee, args, dty, line):
     if n == 2:
         E("DESTROY", prim="drop_fn", fn=h(fv), ptr=h(args[0]), n=as_poly(args[1]), ety=None, user=True)
     elif n == 3:
-        E("CLONE", prim="clone_fn", fn=h(fv), src=h(args[0]), dst=h(args[1]), n=as_poly(args[2]), user=True)
+        E("CLONE", prim="clone_fn", fn=h(fv), src=h(args[0]), dst=h(args[1]), n=as_poly(args[2]), user=True,
+          dst_ts=_typestate_of(I, st, args[1]), src_ts=_typestate_of(I, st, args[0]))
     else:
         E("UNKNOWN", what="indirect call", fn=h(fv), args=h(args))
     return ("unit", "()")
